@@ -7,6 +7,15 @@ package main
 // present (first or last in the list) with limit from {0,1,len-1,len,len+1} (bytes and runes) of
 // the inbound value; inbound: one header carries a value from {absent,"",short,longer,multi-byte},
 // the other header is absent or carries a decoy; both placements; HTTP, gRPC unary, gRPC stream.
+// Header-name dimension: the configured custom name is one of the spellings {canonical,
+// upper-case last word ("...-ID"), all lower-case, all upper-case, mixed (case-swapped)} of two
+// base names — "Custom-Id" and "X-Request-Id" itself (a custom name that only differs from the
+// default by its spelling) — and the client sends the header that carries the value under each
+// of the same five spellings of that header's name. HTTP requests are built as raw request
+// text and read by net/http's own request parser (http.ReadRequest), so what the middleware
+// sees is what a net/http server hands to a handler; a sub-product is also sent through a real
+// net/http server by a real client (via=server). gRPC metadata is built with metadata.Pairs,
+// the API through which grpc lower-cases keys.
 // Every case is sent twice through the same middleware instance.
 // Oracle: the handler's context carries a non-empty string request ID; it is the trusted
 // inbound value truncated to the limit when the configuration trusts a header and that header
@@ -14,12 +23,16 @@ package main
 // value) otherwise.
 
 import (
+	"bufio"
 	"context"
 	"encoding/json"
 	"fmt"
+	"io"
 	"net/http"
 	"net/http/httptest"
 	"strings"
+	"sync"
+	"unicode"
 	"unicode/utf8"
 
 	grpcm "goa.design/goa/v3/grpc/middleware"
@@ -39,6 +52,85 @@ type reqidCase struct {
 	LimitFirst bool     `json:"limit_first"`
 	X          *string  `json:"x_request_id"` // value under X-Request-Id / x-request-id, nil = absent
 	C          *string  `json:"custom"`       // value under the custom name, nil = absent
+	// spelling of the header / metadata key names as the client sends them ("" = canonical
+	// MIME form of X-Request-Id / of the custom name)
+	SentX string `json:"sent_x,omitempty"`
+	SentC string `json:"sent_c,omitempty"`
+	Via   string `json:"via,omitempty"` // http only: "" = net/http request parser in process, "server" = real server and client
+}
+
+const defaultReqIDHeader = "X-Request-Id"
+
+// spellingKinds is the menu of spellings of a header name (configured and sent).
+var spellingKinds = []string{"canonical", "upper-suffix", "lower", "upper", "mixed"}
+
+// spell returns the given spelling of a header name.
+func spell(base, kind string) string {
+	canon := http.CanonicalHeaderKey(base)
+	switch kind {
+	case "upper-suffix": // X-Request-ID
+		i := strings.LastIndexByte(canon, '-')
+		return canon[:i+1] + strings.ToUpper(canon[i+1:])
+	case "lower":
+		return strings.ToLower(canon)
+	case "upper":
+		return strings.ToUpper(canon)
+	case "mixed": // x-rEQUEST-iD
+		return strings.Map(func(r rune) rune {
+			if unicode.IsUpper(r) {
+				return unicode.ToLower(r)
+			}
+			return unicode.ToUpper(r)
+		}, canon)
+	}
+	return canon
+}
+
+// spellingClass names the spelling of a header name for signatures and outcome classes.
+func spellingClass(name string) string {
+	if name == "" {
+		return "unset"
+	}
+	for _, k := range spellingKinds {
+		if spell(name, k) == name {
+			return k
+		}
+	}
+	return "other"
+}
+
+// aliasOfDefault: the custom name designates the default header (differs at most in spelling;
+// header names are case-insensitive), so there is one inbound header, carried in slot X.
+func (cs reqidCase) aliasOfDefault() bool {
+	return strings.EqualFold(cs.CustomName, defaultReqIDHeader)
+}
+
+func (cs reqidCase) sentX() string {
+	if cs.SentX != "" {
+		return cs.SentX
+	}
+	return defaultReqIDHeader
+}
+
+func (cs reqidCase) sentC() string {
+	if cs.SentC != "" {
+		return cs.SentC
+	}
+	return http.CanonicalHeaderKey(cs.CustomName)
+}
+
+// rawRequest is the request as the client puts it on the wire.
+func (cs reqidCase) rawRequest() string {
+	var sb strings.Builder
+	sb.WriteString("GET /x HTTP/1.1\r\nHost: verif.test\r\n")
+	if cs.X != nil {
+		sb.WriteString(cs.sentX() + ": " + *cs.X + "\r\n")
+	}
+	if cs.C != nil {
+		sb.WriteString(cs.sentC() + ": " + *cs.C + "\r\n")
+	}
+	sb.WriteString("\r\n")
+	return sb.String()
 }
 
 type reqidObs struct {
@@ -103,7 +195,7 @@ func observeReqID(ctx context.Context, o *reqidObs) {
 }
 
 // execReqID sends the case's request n times through one middleware instance (real goa code).
-func execReqID(cs reqidCase, n int) []reqidObs {
+func execReqID(cs reqidCase, n int) ([]reqidObs, error) {
 	obs := make([]reqidObs, n)
 	opts := cs.options()
 	switch cs.Transport {
@@ -112,12 +204,17 @@ func execReqID(cs reqidCase, n int) []reqidObs {
 		for i := range obs {
 			o := &obs[i]
 			h := mw(http.HandlerFunc(func(w http.ResponseWriter, r *http.Request) { observeReqID(r.Context(), o) }))
-			req := httptest.NewRequest("GET", "/x", nil)
-			if cs.X != nil {
-				req.Header.Set("X-Request-Id", *cs.X)
+			if cs.Via == "server" {
+				if err := reqidOverServer(cs, h); err != nil {
+					return nil, err
+				}
+				continue
 			}
-			if cs.C != nil {
-				req.Header.Set(cs.CustomName, *cs.C)
+			// net/http's own request parser turns the wire text into the *http.Request a server
+			// hands to its handler (header names in canonical form, whatever the client sent)
+			req, err := http.ReadRequest(bufio.NewReader(strings.NewReader(cs.rawRequest())))
+			if err != nil {
+				return nil, fmt.Errorf("net/http does not parse the request: %v", err)
 			}
 			h.ServeHTTP(httptest.NewRecorder(), req)
 		}
@@ -127,14 +224,16 @@ func execReqID(cs reqidCase, n int) []reqidObs {
 			if cs.X == nil && cs.C == nil {
 				return ctx // no incoming metadata at all
 			}
-			md := metadata.MD{}
+			// metadata.Pairs is how an application hands keys to grpc: it lower-cases them, which
+			// is also the only form HTTP/2 carries
+			var kv []string
 			if cs.X != nil {
-				md.Set("x-request-id", *cs.X)
+				kv = append(kv, cs.sentX(), *cs.X)
 			}
 			if cs.C != nil {
-				md.Set(strings.ToLower(cs.CustomName), *cs.C)
+				kv = append(kv, cs.sentC(), *cs.C)
 			}
-			return metadata.NewIncomingContext(ctx, md)
+			return metadata.NewIncomingContext(ctx, metadata.Pairs(kv...))
 		}
 		if cs.Transport == "grpc-unary" {
 			ic := grpcm.UnaryRequestID(opts...)
@@ -156,7 +255,58 @@ func execReqID(cs reqidCase, n int) []reqidObs {
 			}
 		}
 	}
-	return obs
+	return obs, nil
+}
+
+// ---- the same request through a real net/http server and client ---------------------------
+
+var reqidSrv struct {
+	mu  sync.Mutex
+	srv *httptest.Server
+	cur http.Handler // handler of the case in flight (cases are sent one at a time)
+}
+
+func reqidServer() *httptest.Server {
+	if reqidSrv.srv == nil {
+		reqidSrv.srv = httptest.NewServer(http.HandlerFunc(func(w http.ResponseWriter, r *http.Request) {
+			reqidSrv.mu.Lock()
+			h := reqidSrv.cur
+			reqidSrv.mu.Unlock()
+			h.ServeHTTP(w, r)
+		}))
+	}
+	return reqidSrv.srv
+}
+
+func closeReqidServer() {
+	if reqidSrv.srv != nil {
+		reqidSrv.srv.Close()
+		reqidSrv.srv = nil
+	}
+}
+
+func reqidOverServer(cs reqidCase, h http.Handler) error {
+	srv := reqidServer()
+	reqidSrv.mu.Lock()
+	reqidSrv.cur = h
+	reqidSrv.mu.Unlock()
+	req, err := http.NewRequest("GET", srv.URL+"/x", nil)
+	if err != nil {
+		return err
+	}
+	// assigning the map entry keeps the spelling: net/http's client writes keys as they are
+	if cs.X != nil {
+		req.Header[cs.sentX()] = []string{*cs.X}
+	}
+	if cs.C != nil {
+		req.Header[cs.sentC()] = []string{*cs.C}
+	}
+	resp, err := srv.Client().Do(req)
+	if err != nil {
+		return err
+	}
+	_, _ = io.Copy(io.Discard, resp.Body)
+	return resp.Body.Close()
 }
 
 type truncation struct{ S, How string }
@@ -261,9 +411,12 @@ func nonEmptyPrefixOf(id string, v *string) bool {
 
 // checkReqID executes one case and applies the oracle.
 func checkReqID(cs reqidCase) (fails []failure, outcome string) {
-	obs := execReqID(cs, 2)
+	obs, err := execReqID(cs, 2)
+	if err != nil {
+		return []failure{{"reqid transport=" + cs.Transport + " observed=harness-error", err.Error()}}, "error"
+	}
 	trust, header, limit := cs.refConfig()
-	custom := trust && !strings.EqualFold(header, "X-Request-Id")
+	custom := trust && !strings.EqualFold(header, defaultReqIDHeader)
 	var trusted *string
 	if trust {
 		if custom {
@@ -285,7 +438,11 @@ func checkReqID(cs reqidCase) (fails []failure, outcome string) {
 		tv = *trusted
 	}
 	// the limit class is part of the signature only for truncation deviations
-	sigBase := fmt.Sprintf("reqid transport=%s trust=%v header=%s inbound=%s", cs.Transport, trust, hdrClass, valueClass(trusted))
+	nameClass := "default" // spelling class of the configured name of the trusted header
+	if trust && header != defaultReqIDHeader {
+		nameClass = spellingClass(header)
+	}
+	sigBase := fmt.Sprintf("reqid transport=%s trust=%v header=%s name=%s inbound=%s", cs.Transport, trust, hdrClass, nameClass, valueClass(trusted))
 	desc, _ := json.Marshal(cs)
 	add := func(observed, what string) {
 		fails = append(fails, failure{sigBase + " observed=" + observed, what + " [case " + string(desc) + "]"})
@@ -390,7 +547,19 @@ func checkReqID(cs reqidCase) (fails []failure, outcome string) {
 			got = g
 		}
 	}
-	return fails, fmt.Sprintf("reqid %s expect=%s got=%s", cs.Transport, expect, got)
+	sent := "-" // spelling the client used for the header that carries the trusted value
+	if trusted != nil {
+		if custom {
+			sent = spellingClass(cs.sentC())
+		} else {
+			sent = spellingClass(cs.sentX())
+		}
+	}
+	via := ""
+	if cs.Via != "" {
+		via = " via=" + cs.Via
+	}
+	return fails, fmt.Sprintf("reqid %s%s expect=%s got=%s name=%s sent=%s", cs.Transport, via, expect, got, nameClass, sent)
 }
 
 func strp(s string) *string { return &s }
@@ -439,9 +608,30 @@ func limitsFor(v *string, thorough bool) []*int {
 	return out
 }
 
+// reqidNames is the menu of configured custom header names: every spelling of the two bases.
+func reqidNames() []string {
+	var out []string
+	for _, base := range []string{"Custom-Id", defaultReqIDHeader} {
+		for _, k := range spellingKinds {
+			out = append(out, spell(base, k))
+		}
+	}
+	return out
+}
+
+func hasAtom(list []string, a string) bool {
+	for _, x := range list {
+		if x == a {
+			return true
+		}
+	}
+	return false
+}
+
 func runReqID(c *core.Ctx) {
+	defer closeReqidServer()
 	var values []*string
-	customs := []string{"Custom-Id"}
+	names := reqidNames()
 	if c.Thorough() {
 		// every inbound length 0..10 against every limit 0..10 (covers limits 0..n, lengths 0..n+2 for n <= 8)
 		values = append(values, nil)
@@ -453,23 +643,55 @@ func runReqID(c *core.Ctx) {
 		for _, m := range multi {
 			values = append(values, strp(m))
 		}
-		customs = append(customs, "x-verif-rid")
 	} else {
 		values = []*string{nil, strp(""), strp("r."), strp("req.7f3"), strp("request.id-0123456789abcdef"), strp("é€.x😀")}
 	}
 	decoys := []*string{nil, strp("decoy.value")}
 	lists := optLists()
 	transports := []string{"http", "grpc-unary", "grpc-stream"}
-	c.Note("reqid_alphabet", map[string]int{"transports": len(transports), "option_lists": len(lists), "inbound_values": len(values), "custom_names": len(customs)})
-	var cases int64
+	c.Note("reqid_alphabet", map[string]any{"transports": len(transports), "option_lists": len(lists), "inbound_values": len(values),
+		"configured_names": names, "name_spellings": spellingKinds,
+		"sent_spellings": "the header carrying the value is sent under each of the 5 spellings of its name (the other header canonically)",
+		"limits":         "option absent, 0, 1, len-1, len, len+1 of the inbound value in bytes and in runes (thorough: 0..10); limit option first or last",
+		"trust":          "every option list of length 0..2 over {UseRequestID(true), UseRequestID(false), RequestIDHeader(name)}: trust on/off for the default and for each custom name"})
+	var cases, serverCases int64
+	one := func(cs reqidCase) {
+		key, _ := json.Marshal(cs)
+		c.State("reqid:"+string(key), (cs.X != nil && *cs.X != "") || (cs.C != nil && *cs.C != ""))
+		fails, outcome := checkReqID(cs)
+		if outcome == "error" {
+			c.HarnessError("reqid case %s: %s", key, fails[0].What)
+			return
+		}
+		c.Exec(2)
+		noteOutcome(c, outcome)
+		cases++
+		if cs.Via == "server" {
+			serverCases++
+		}
+		if cases%997 == 0 {
+			c.Sample(replayCase{Part: "reqid", ReqID: &cs})
+		}
+		if len(fails) > 0 {
+			cc := cs
+			report(c, fails, replayCase{Part: "reqid", ReqID: &cc}, func() []failure { f, _ := checkReqID(cc); return f })
+		}
+	}
 	for _, tr := range transports {
 		for _, ol := range lists {
-			for _, cn := range customs {
+			// the custom name matters to the configuration only when the list has the option;
+			// otherwise it only names the second (never trusted) header
+			cns := names
+			if !hasAtom(ol, "C") {
+				cns = names[:1]
+			}
+			for _, cn := range cns {
 				if c.Expired() {
-					c.Incomplete(fmt.Sprintf("reqid: stopped at transport=%s opts=%v", tr, ol))
+					c.Incomplete(fmt.Sprintf("reqid: stopped at transport=%s opts=%v name=%s", tr, ol, cn))
 					return
 				}
-				for _, v := range values {
+				alias := strings.EqualFold(cn, defaultReqIDHeader)
+				for vi, v := range values {
 					for _, lim := range limitsFor(v, c.Thorough()) {
 						for _, lf := range []bool{false, true} {
 							if lim == nil && lf {
@@ -477,24 +699,30 @@ func runReqID(c *core.Ctx) {
 							}
 							for _, d := range decoys {
 								for _, primaryX := range []bool{true, false} {
-									cs := reqidCase{Transport: tr, Opts: ol, CustomName: cn, Limit: lim, LimitFirst: lf}
+									if alias && (d != nil || !primaryX) {
+										continue // one header only: it is carried in slot X
+									}
+									base := cn
 									if primaryX {
-										cs.X, cs.C = v, d
-									} else {
-										cs.X, cs.C = d, v
+										base = defaultReqIDHeader
 									}
-									key, _ := json.Marshal(cs)
-									c.State("reqid:"+string(key), (cs.X != nil && *cs.X != "") || (cs.C != nil && *cs.C != ""))
-									fails, outcome := checkReqID(cs)
-									c.Exec(2)
-									noteOutcome(c, outcome)
-									cases++
-									if cases%97 == 0 {
-										c.Sample(replayCase{Part: "reqid", ReqID: &cs})
-									}
-									if len(fails) > 0 {
-										cc := cs
-										report(c, fails, replayCase{Part: "reqid", ReqID: &cc}, func() []failure { f, _ := checkReqID(cc); return f })
+									for _, sk := range spellingKinds {
+										if v == nil && sk != "canonical" {
+											continue // nothing is sent under that name
+										}
+										cs := reqidCase{Transport: tr, Opts: ol, CustomName: cn, Limit: lim, LimitFirst: lf}
+										if primaryX {
+											cs.X, cs.C, cs.SentX = v, d, spell(base, sk)
+										} else {
+											cs.X, cs.C, cs.SentC = d, v, spell(base, sk)
+										}
+										one(cs)
+										// the same through a real server and client: one representative of
+										// the value / decoy / option-order dimensions, everything else complete
+										if tr == "http" && !lf && d == nil && v != nil && vi == len(values)/2 {
+											cs.Via = "server"
+											one(cs)
+										}
 									}
 								}
 							}
@@ -505,4 +733,5 @@ func runReqID(c *core.Ctx) {
 		}
 	}
 	c.Note("reqid_cases", cases)
+	c.Note("reqid_cases_over_real_server", serverCases)
 }
